@@ -96,10 +96,21 @@ def run(tier, seed, replay=None):
         prec = rng.choice([None, None, "c", "r"])
         max_full = rng.choice([0, 500])
         local = rng.choice(["gmres", "bicgstab"]) if max_full == 0 else None
-        guess = solverkit.rand_tt_float(rng, N, solverkit.ranks(rng, len(N), 3), torch.float64) if rng.random() < 0.35 else None
+        gk = rng.choice(["none", "none", "none", "random", "random", "zeros", "0*b", "b", "random*1e6", "random*1e-9", "zero-core"])
+        guess = None
+        if gk != "none":
+            guess = solverkit.rand_tt_float(rng, N, solverkit.ranks(rng, len(N), 3), torch.float64)
+            if gk == "zeros": guess = torchtt.zeros(N, dtype=torch.float64)
+            elif gk == "0*b": guess = 0 * b
+            elif gk == "b": guess = b.clone()
+            elif gk == "random*1e6": guess = 1e6 * guess
+            elif gk == "random*1e-9": guess = 1e-9 * guess
+            elif gk == "zero-core":
+                cs = [c.clone() for c in guess.cores]; k0 = rng.randrange(len(cs)); cs[k0] = torch.zeros_like(cs[k0]); guess = torchtt.TT(cs)
+        dist["guess:" + gk] = dist.get("guess:" + gk, 0) + 1
         sd = rng.randrange(1 << 30); torch.manual_seed(sd)
         desc = {"N": N, "family": kind, "rank_A": [int(r) for r in A.R], "rank_b": [int(r) for r in b.R], "eps": eps, "preconditioner": prec, "max_full": max_full,
-                "local_solver": local, "guess": guess is not None, "torch_seed": sd}
+                "local_solver": local, "guess": guess is not None, "guess_kind": gk, "torch_seed": sd}
         key = "%s prec=%s %s" % (kind, prec, "full" if max_full else local)
         dist[key] = dist.get(key, 0) + 1
         if i % 8 == 0 and len(samples) < 5: samples.append(desc)
